@@ -265,7 +265,9 @@ def codegen_case(ctx, rng):
     from kvm import gen, ops
     from kvm.iso import Iso
     cfg = rng.choice(gen.sig_orderings(2, 3) + gen.pqr_all(4, 4)[::3] + [{'named': '2DPGA'}])
-    alg = gen.make_algebra(cfg)
+    alg = gen.make_or_skip(ctx, cfg)
+    if alg is None:
+        return
     iso = Iso(alg)
     canon = tuple(alg.canon2bin.values())
     op = rng.choice(CODEGEN_OPS)
